@@ -68,19 +68,72 @@ def o_reduce(spec, r, extra):
         elif k == 9: return r['ret'] != max(range(n), key=lambda i: (a[i], -i)), f"argmax({x[:n]}) = {r['ret']}"
         elif k == 10: return r['ret'] != min(range(n), key=lambda i: (a[i], i)), f"argmin({x[:n]}) = {r['ret']}"
         elif k == 11: exp = max(a) - min(a)
+        elif k in (12, 16):
+            for i in range(n):
+                sup = a[:i + 1] if k == 12 else a[i:]
+                ev = float(sum(sup)); sc = float(sum(abs(v) for v in sup))
+                if abs(y[i] - ev) > 8 * n * 2.0 ** -52 * max(sc, 1e-300): return True, f"cumsum({x[:n]}{', reverse' if k == 16 else ''})[{i}] = {y[i]!r}, the sum of its {len(sup)} elements is {ev!r} (scale {sc!r})"
+            return False, 'ok'
         else: return False, 'n/a'
         if exp is None: return False, 'undefined'
         ev = float(exp) if not isinstance(exp, Fraction) else float(exp)
         scale = max([abs(float(v)) for v in a] + [1e-300]) * max(n, 1)
         return abs(y[0] - ev) > 8 * 2.0 ** -52 * max(scale, abs(ev)), f"{name}({x[:n]}) = {y[0]!r}, mathematical value {ev!r}"
+    if cplx and k in (11, 12):
+        for i in range(n):
+            for c in (0, 1):
+                sup = X[c:2 * (i + 1):2] if k == 11 else X[2 * i + c:2 * n:2]
+                ev = float(sum(sup)); sc = float(sum(abs(v) for v in sup))
+                if abs(y[2 * i + c] - ev) > 8 * n * 2.0 ** -52 * max(sc, 1e-300): return True, f"complex cumsum{' reverse' if k == 12 else ''} element {i} {'im' if c else 're'} = {y[2 * i + c]!r}, the sum of its elements is {ev!r} (scale {sc!r})"
+        return False, 'ok'
     return False, 'n/a'
+def power_ref(kind, re, im, nr, ni):
+    """principal value |x|^n * exp(i n arg x), arg honouring signed zeros; -> list of (re, im) mpmath pairs or None where undefined (0 to a negative power)"""
+    import mpmath; mpmath.mp.dps = 40
+    def cp(re_, im_, n_):
+        a = mpmath.hypot(re_, im_)
+        if a == 0: return None if n_ < 0 else ((mpmath.mpf(1), mpmath.mpf(0)) if n_ == 0 else (mpmath.mpf(0), mpmath.mpf(0)))
+        if im_ == 0: ph = (mpmath.pi if math.copysign(1, im_) > 0 else -mpmath.pi) if (re_ < 0 or (re_ == 0 and math.copysign(1, re_) < 0)) else mpmath.mpf(0)
+        else: ph = mpmath.atan2(im_, re_)
+        r_ = a ** n_; return (r_ * mpmath.cos(ph * n_), r_ * mpmath.sin(ph * n_))
+    def rp(x_, n_):
+        if x_ == 0: return None if n_ < 0 else ((mpmath.mpf(1), 0) if n_ == 0 else (mpmath.mpf(0), 0))
+        if x_ < 0 and n_ != int(n_): return None
+        return (mpmath.mpf(x_) ** n_, 0)
+    if kind in (0, 12): return [rp(re, nr)]
+    if kind == 1: return [cp(re, im, nr)]
+    if kind == 2: return [rp(re, ni)]
+    if kind == 3: return [cp(re, im, ni)]
+    if kind == 4: return [rp(re, nr), rp(1.25, nr)]
+    if kind == 5: return [cp(re, im, nr), cp(1.25, -0.5, nr)]
+    if kind == 6: return [cp(re, im, nr), cp(re, im, 1.5)]
+    if kind == 7: return [rp(re, nr), rp(re, 1.5)]
+    if kind == 8: return [rp(re, nr), rp(1.25, 1.5)]
+    if kind == 9: return [cp(re, im, nr), cp(1.25, -0.5, 1.5)]
+    if kind == 10: return [rp(re, ni), rp(1.25, ni)]
+    return [cp(re, im, ni), cp(1.25, -0.5, ni)]
+PK = ['power(real, real)', 'power(cmplx, real)', 'power(real, int)', 'power(cmplx, int)', 'power(arr_real, real)', 'power(arr_cmplx, real)', 'power(cmplx, arr_real)', 'power(real, arr_real)', 'power(arr_real, arr_real)',
+      'power(arr_cmplx, arr_real)', 'power(arr_real, int)', 'power(arr_cmplx, int)', 'pow(real, real)']
+def power_bad(kind, re, im, nr, ni, cnt, out):
+    ref = power_ref(kind, re, im, nr, ni)
+    if cnt != len(ref): return f'{cnt} results instead of {len(ref)}'
+    for i, e in enumerate(ref):
+        if e is None: continue
+        gr, gi = out[2 * i], out[2 * i + 1]; er, ei = float(e[0]), float(e[1]); sc = max(math.hypot(er, ei), 1e-300)
+        if gr != gr or gi != gi or abs(gr - er) > 16 * 2.0 ** -52 * sc or abs(gi - ei) > 16 * 2.0 ** -52 * sc: return f'result {i} = ({gr!r}, {gi!r}), principal value is ({er!r}, {ei!r})'
+    return None
+def o_power(spec, r, extra):
+    kind, re, im, nr, ni = spec[0][1], spec[1][1], spec[2][1], spec[3][1], sgn(spec[4][1], 32)
+    desc = f"{PK[kind]} at x = {re!r}" + (f" + {im!r}i" if kind in (1, 3, 5, 6, 9, 11) else '') + f", n = {ni if kind in (2, 3, 10, 11) else nr!r}"
+    if r['status'] != 'ok' or r['ret'] == H_THROW: return True, f"{desc}: {r['status']} / threw"
+    b = power_bad(kind, re, im, nr, ni, r['ret'], r['outs'][0]); return (b is not None), f"{desc}: {b}"
 def o_angle(spec, r, extra):
     re, im = spec[0][1], spec[1][1]
     if r['status'] != 'ok': return True, f"angle: {r['status']}"
     exp = math.atan2(im, re)
     bad = (r['ret'] != r['ret']) or abs(r['ret'] - exp) > 4 * 2.0 ** -52 * 4 or (exp != 0 and math.copysign(1, r['ret']) != math.copysign(1, exp) and abs(exp) > 1e-300)
     return bad, f"angle({re!r} + {im!r}i) = {r['ret']!r}, arg of that number is {exp!r}"
-ORACLES = {'shape': o_shape, 'arange': o_arange, 'arange_f': o_arange_f, 'reduce': o_reduce, 'angle': o_angle}
+ORACLES = {'shape': o_shape, 'arange': o_arange, 'arange_f': o_arange_f, 'reduce': o_reduce, 'angle': o_angle, 'power': o_power}
 
 def job_arange_i(res, combos):
     """start and step enumerated (concrete), stop symbolic in [-12, 12]: on every path count and values == python range(start, stop, step)"""
@@ -260,7 +313,118 @@ def job_angle(res):
         if sol.check() == z3.unsat: res.ob(True, 'ground', f'angle({re} + {im}i) == {exp}')
         else: confirm(res, PID, HARNESS, 'h_angle', [('f64', re), ('f64', im)], 'f64', 'angle', ORACLES, f'angle:{"negative-real-axis" if re < 0 and im == 0 else "origin" if re == 0 and im == 0 else "other"}', f'angle({re} + {im}i) = {r!r}, expected {exp!r}')
 
-JOBFNS = {'arange_i': job_arange_i, 'arange_f': job_arange_f, 'shape': job_shape, 'reduce': job_reduce, 'linspace': job_linspace, 'angle': job_angle}
+def sum_leaves(t):
+    """leaves of a pure floating-point summation tree (fadd only, +0.0 start values allowed) or None"""
+    out = []; st = [t]
+    while st:
+        u = st.pop()
+        if isF(u) and u.op == 'fadd': st.extend(u.args)
+        elif isF(u) and u.op == 'sym': out.append(u.args[0])
+        elif not isF(u) and u == 0.0: pass
+        else: return None
+    return sorted(out)
+def job_cumsum(res, n):
+    """cumsum forward / reverse, real / complex: every output is a pure summation tree (fadd only) over exactly the elements of its prefix / suffix, each once - so its rounding error is bounded by
+    (n-1) eps times the sum of magnitudes of ITS OWN elements (the result's scale), and it does not depend on any other element - and equals the defined sum over the reals."""
+    mod, so = load(HARNESS)
+    for cplx, k, rev in ((False, 12, False), (False, 16, True), (True, 11, False), (True, 12, True)):
+        w = 2 if cplx else 1; m = Machine(mod); xs = [fsym(f'x{i}') for i in range(2 * w * n)]
+        nm = ('complex ' if cplx else '') + 'cumsum' + (' reverse' if rev else '')
+        try: r, outs, _ = sym_call(m, 'h_reduce_c' if cplx else 'h_reduce', [('i32', k), ('pf64', xs), ('i32', n), ('pf64', [0.0] * (2 * w * n + 2))], 'i32')
+        except (Throw, UB) as e: res.absorb(m); res.inc(f'{nm} n={n}: {type(e).__name__}'); continue
+        res.absorb(m); y = outs[1]; bad = None
+        if r != n or m.taken: bad = f'length {r} / data-dependent control flow'
+        for i in range(n if bad is None else 0):
+            for c in range(w):
+                want = sorted(f'x{w * j + c}' for j in (range(i, n) if rev else range(0, i + 1)))
+                t = y[w * i + c]; got = [t.args[0]] if (isF(t) and t.op == 'sym') else sum_leaves(t)
+                if got != want: bad = f'element {i}: ' + ('not a plain sum of its elements' if got is None else f'sums {got} instead of {want}'); break
+            if bad: break
+        sol = z3.Solver(); sol.add(z3.Not(z3.BoolVal(bad is None)))
+        if timed_check(sol, res) == z3.unsat: res.ob(True, 'UF', f'{nm} n={n}: every element is a pure summation tree over exactly its {"suffix" if rev else "prefix"} (rounding error bounded by the scale of the element itself)')
+        else:
+            # inputs that expose a dependence on foreign elements / cancellation: magnitudes falling (reverse) or rising (forward) by 1e3 per element
+            xv = [(0.1 + 0.01 * i) * 10.0 ** (3 * ((n - 1 - i // w) if rev else (i // w))) * (-1) ** (i // w) for i in range(w * n)] + [0.0] * (w * n)
+            confirm(res, PID, HARNESS, 'h_reduce_c' if cplx else 'h_reduce', [('i32', k), ('pf64', xv), ('i32', n), ('pf64', [0.0] * (2 * w * n + 2))], 'i32', 'reduce', ORACLES, f'reduce:{nm.replace(" ", "-")}', f'{nm} n={n}: {bad}', extra={'cplx': cplx})
+
+SPECIAL = [(-2.0, -0.0), (-2.0, 0.0), (-1.0, -0.0), (-0.5, 0.0), (0.0, 0.0), (-0.0, 0.0), (0.0, -0.0), (-0.0, -0.0), (2.0, 0.0), (2.0, -0.0), (0.0, 1.5), (0.0, -1.5), (-0.0, 1.5), (1.0, 1.0), (-1.0, 1.0), (-1.0, -1.0), (1.0, -1.0),
+           (-3.5, 1e-300), (-3.5, -1e-300), (1e-160, 1e-160), (1e150, -1e150), (0.7, -2.2)]
+def job_power_points(res, kinds):
+    """ground special points of the quantifier (zeros, signed zeros, both sides of the negative real axis, tiny / huge magnitudes) for every power overload: principal value |x|^n exp(i n arg x) within 16 eps of the result's scale"""
+    mod, so = load(HARNESS)
+    for kind in kinds:
+        isint = kind in (2, 3, 10, 11); cplx = kind in (1, 3, 5, 6, 9, 11)
+        for (re, im) in SPECIAL:
+            if not cplx and im != 0.0: continue
+            if not cplx and math.copysign(1, im) < 0: continue
+            for nv in ((-3, -2, -1, 0, 1, 2, 3, 5) if isint else (0.5, -0.5, 1.5, 2.0, 3.0, -1.0, 0.0, 1.0 / 3, 2.5)):
+                nr = 0.0 if isint else nv; ni = nv if isint else 0
+                if power_ref(kind, re, im, nr, ni)[0] is None: continue
+                a = math.hypot(re, im)
+                if a != 0 and abs(math.log10(a) * nv) > 290: continue
+                m = Machine(mod); out = m.alloc_doubles([0.0] * 4, 'out')
+                try: cnt = m.call('@h_power', [kind, re, im, nr, ni & 0xffffffff, out])
+                except (Throw, UB) as e: res.absorb(m); res.inc(f'{PK[kind]}: {type(e).__name__}'); continue
+                res.absorb(m); b = power_bad(kind, re, im, nr, ni, cnt, m.read_doubles(out, 4))
+                sol = z3.Solver(); sol.add(z3.Not(z3.BoolVal(b is None)))
+                if timed_check(sol, res) == z3.unsat: res.ob(True, 'ground', f'{PK[kind]} at ({re!r}, {im!r}) ^ {nv}: principal value within 16 eps of its scale')
+                else: confirm(res, PID, HARNESS, 'h_power', [('i32', kind), ('f64', re), ('f64', im), ('f64', nr), ('i32', ni & 0xffffffff), ('pf64', [0.0] * 4)], 'i32', 'power', ORACLES,
+                              f'power:{kind}:' + ('negative-real-axis' if re < 0 and im == 0 else 'origin' if re == 0 and im == 0 else 'magnitude-outside-1e-154..1e154' if not (1e-154 < math.hypot(re, im) < 1e154) else 'other') + (f':n={nv}' if isint else ''), f'{PK[kind]} at ({re!r}, {im!r}) ^ {nv}: {b}')
+
+def job_power_sym(res):
+    """symbolic base and exponent: (1) every array overload returns, element-wise, the very term of the scalar overload on that element; (2) the scalar complex power is pow(|x|, n) * (cos, sin)(n * atan2(im, re)) over the
+    reals with the library functions uninterpreted; (3) integer powers 2, -1, 0, 1 of a real base are x*x, 1/x, 1, x"""
+    mod, so = load(HARNESS)
+    def run(kind, nr=None, ni=0):
+        m = Machine(mod); out = m.alloc_doubles([0.0] * 4, 'out'); cnt = m.call('@h_power', [kind, fsym('re'), fsym('im'), fsym('nr') if nr is None else nr, ni & 0xffffffff, out]); res.absorb(m)
+        return m, cnt, m.read_doubles(out, 4)
+    def same(a, b): return (a is b) if (isF(a) or isF(b)) else same_bits(a, b)
+    def ob(ok, desc, key, kind, ni=0):
+        sol = z3.Solver(); sol.add(z3.Not(z3.BoolVal(bool(ok))))
+        if timed_check(sol, res) == z3.unsat: res.ob(True, 'UF', desc)
+        else:
+            hit = False
+            for (re, im) in ((-2.0, -0.0), (-2.0, 0.0), (0.7, -2.2), (0.0, 0.0), (3.0, 0.0)):
+                for nr in (0.5, 2.5, -1.5):
+                    hit = confirm(res, PID, HARNESS, 'h_power', [('i32', kind), ('f64', re), ('f64', im), ('f64', nr), ('i32', ni & 0xffffffff), ('pf64', [0.0] * 4)], 'i32', 'power', ORACLES, key, desc + ' fails', suspect_is_inconclusive=False)
+                    if hit: break
+                if hit: break
+            if not hit: res.inc(f'{desc}: structural obligation fails but the probe points agree natively')
+    try:
+        m0, c0, s_rr = run(0); m1, c1, s_cr = run(1)
+        for kind, ref, w in ((4, s_rr, 1), (7, s_rr, 1), (8, s_rr, 1), (12, s_rr, 1), (5, s_cr, 2), (6, s_cr, 2), (9, s_cr, 2)):
+            m, c, o = run(kind); ok = (c == (1 if kind == 12 else 2)) and not m.taken and all(same(o[i], ref[i]) for i in range(w))
+            ob(ok, f'{PK[kind]}: element 0 is the very term of the scalar overload for every base and exponent', f'power:{kind}:elementwise', kind)
+        # scalar complex power: one path, polar form
+        L = Lower('UF'); re, im, nr = fsym('re'), fsym('im'), fsym('nr')
+        ok = not m1.taken and isF(s_cr[0]) and isF(s_cr[1])
+        if ok:
+            low = m1.lower
+            # find the modulus / phase sub-terms by their calls
+            calls = {}
+            for t in topo([s_cr[0], s_cr[1]]):
+                if t.op == 'call': calls.setdefault(t.args[0], []).append(t)
+            need = all(k in calls for k in ('pow', 'atan2')) and (('cos' in calls and 'sin' in calls) or 'sincos' in calls)
+            ok = need and len(calls['pow']) == 1 and len(calls['atan2']) == 1
+            if ok:
+                P = calls['pow'][0]; A = calls['atan2'][0]
+                ok = (A.args[1] is im and A.args[2] is re and P.args[2] is nr)
+                mod2 = low(P.args[1]); lre = low(re); lim = low(im); sol = z3.Solver(); sol.add(*m1.pc); sol.add(z3.Not(z3.And(mod2 >= 0, mod2 * mod2 == low(re) * low(re) + low(im) * low(im))))
+                ok = ok and timed_check(sol, res) == z3.unsat
+                if ok:
+                    cosn = [t for t in calls.get('cos', []) ]; sinn = [t for t in calls.get('sin', [])]
+                    ok = len(cosn) == 1 and len(sinn) == 1 and cosn[0].args[1] is sinn[0].args[1]
+                    if ok:
+                        arg = cosn[0].args[1]; claim = z3.Or(low(arg) != low(A) * low(nr), low(s_cr[0]) != low(P) * low(cosn[0]), low(s_cr[1]) != low(P) * low(sinn[0])); q = z3.Solver(); q.add(*m1.pc); q.add(claim)
+                        ok = timed_check(q, res) == z3.unsat
+        ob(ok, 'power(cmplx, real): (re, im) == pow(|x|, n) * (cos, sin)(n * atan2(im, re)) with |x|^2 == re^2 + im^2, on a single path (no special-casing of the base)', 'power:1:polar', 1)
+        for ni, want in ((2, 'x*x'), (-1, '1/x'), (0, '1'), (1, 'x')):
+            m, c, o = run(2, nr=0.0, ni=ni); v = o[0]; X = z3.Real('re'); lv = m.lower(v) if isF(v) else z3.RealVal(Fraction(v))
+            q = z3.Solver(); q.add(*m.pc); q.add(X != 0); q.add(lv != {2: X * X, -1: 1 / X, 0: z3.RealVal(1), 1: X}[ni])
+            ob(c == 1 and timed_check(q, res) == z3.unsat, f'power(real x, int {ni}) == {want} for every x != 0', f'power:2:int{ni}', 2, ni)
+    except (Throw, UB, Unsupported) as e: res.inc(f'power symbolic: {type(e).__name__} {str(e)[:200]}')
+
+JOBFNS = {'cumsum': job_cumsum, 'power_points': job_power_points, 'power_sym': job_power_sym, 'arange_i': job_arange_i, 'arange_f': job_arange_f, 'shape': job_shape, 'reduce': job_reduce, 'linspace': job_linspace, 'angle': job_angle}
 
 def selftest(st):
     calls = [('h_arange_i', [('i32', a & 0xffffffff), ('i32', b & 0xffffffff), ('i32', s_ & 0xffffffff), ('pf64', [0.0] * 32), ('i32', 32)], 'i32') for a, b, s_ in [(0, 10, 1), (0, 10, 2), (1, 100 // 10, 3), (5, -5, -2), (-12, 12, 5)]]
@@ -268,6 +432,8 @@ def selftest(st):
     calls += [('h_shape', [('i32', k), ('pf64', x), ('i32', 4), ('i32', p1), ('i32', p2), ('pf64', [0.0] * 200)], 'i32') for k, p1, p2 in [(0, 3, 1), (1, 2, 1), (2, 7, 0), (3, 2, 0), (3, 0xfffffffe, 0), (4, 0, 0), (5, 3, 0), (6, 3, 2), (7, 2, 0), (8, 1, 0)]]
     calls += [('h_reduce', [('i32', k), ('pf64', x), ('i32', 5), ('pf64', [0.0] * 12)], 'i32') for k in range(16)]
     calls += [('h_reduce_c', [('i32', k), ('pf64', x), ('i32', 3), ('pf64', [0.0] * 8)], 'i32') for k in range(11)]
+    calls += [('h_reduce', [('i32', 16), ('pf64', x), ('i32', 5), ('pf64', [0.0] * 12)], 'i32'), ('h_reduce_c', [('i32', 11), ('pf64', x), ('i32', 3), ('pf64', [0.0] * 8)], 'i32'), ('h_reduce_c', [('i32', 12), ('pf64', x), ('i32', 3), ('pf64', [0.0] * 8)], 'i32')]
+    calls += [('h_power', [('i32', k), ('f64', re), ('f64', im), ('f64', 1.5), ('i32', 3), ('pf64', [0.0] * 4)], 'i32') for k in range(13) for re, im in ((2.0, 0.5), (-2.0, -0.0))if not (k in (0, 4, 7, 8, 12) and re < 0)]
     calls += [('h_linspace', [('f64', -1.0), ('f64', 2.0), ('i32', 7), ('pf64', [0.0] * 7)], 'i32'), ('h_angle', [('f64', -1.0), ('f64', 0.5)], 'f64')]
     selftest_calls(st, HARNESS, calls)
 
@@ -282,6 +448,9 @@ def main(tier, seed):
             if k in (0, 6, 7) and n > 5: continue
             jobs.append((f'shape k={k} n={n}', 'shape', dict(k=k, n=n), 3000))
     for n in ((1, 2, 4) if q else (1, 2, 3, 4, 5, 6)): jobs.append((f'reductions n={n}', 'reduce', dict(n=n), 3000))
+    for n in ((1, 2, 5) if q else (1, 2, 3, 4, 5, 8, 16, 33)): jobs.append((f'cumsum n={n}', 'cumsum', dict(n=n), 600))
+    for kind in range(13): jobs.append((f'power special points kind={kind}', 'power_points', dict(kinds=[kind]), 900))
+    jobs.append(('power symbolic', 'power_sym', {}, 600))
     for n in ((1, 2, 5) if q else (1, 2, 3, 5, 10, 33, 100)): jobs.append((f'linspace n={n}', 'linspace', dict(n=n), 600))
     jobs.append(('angle special points', 'angle', {}, 300))
     return run_property(PID, tier, HARNESS, jobs, JOBFNS,
